@@ -201,9 +201,7 @@ def defining_call(f, o, hops=0, path=()):
             return defining_call(f, t["args"][0], hops + 1, path)
         if nm in A.UNWRAP_CALLS and t["args"]:
             return defining_call(f, t["args"][0], hops + 1, (0,) + path)
-        if path:
-            return None
-        return (bi, t)
+        return (bi, t, path)
     s = f.blocks[bi]["s"][si]
     v = s["v"]
     if s["d"].get("p"):
